@@ -197,9 +197,11 @@ def gen_case(rng, tier, T_modes=("zero", "pos", "mixed", "named", "empty")):
     else:
         Ts = None
         sched = {"schedule": rng.choice(["linear", "geometric"]), "duration": rng.randint(1, 5),
-                 "range": rng.choice([None, [3.0, 0.5], [2.5, 2.5], [4.0, 0.0]])}
+                 "range": rng.choice([None, [3.0, 0.5], [2.5, 2.5], [4.0, 0.0], [0.0, 0.0]])}
         if sched["schedule"] == "geometric" and sched["range"] == [4.0, 0.0]:
             sched["range"] = [4.0, 0.25]
+        if sched["schedule"] == "geometric" and sched["range"] == [0.0, 0.0]:
+            sched["schedule"] = "linear"          # a geometric sequence cannot include zero; (0, 0) given by the caller is a quench
     init = None
     if rng.random() < 0.5:
         dom = (1, -1) if spin else (0, 1)
@@ -211,7 +213,9 @@ def gen_case(rng, tier, T_modes=("zero", "pos", "mixed", "named", "empty")):
             "num": rng.choice([1, 1, 1, 2, 2, 3, 3, 0, -1]) if rng.random() < 0.9 else 4,
             "in_order": rng.random() < 0.5, "init": init, "seed": rng.randint(0, 2 ** 31 - 1),
             # an explicit temperature list is used as it is: anneal_duration (and temperature_range) are documented as ignored then
-            "dur": (rng.choice([1, 1, 2, 3]) if (Ts is not None and rng.random() < 0.35) else None)}
+            "dur": (rng.choice([1, 1, 2, 3]) if (Ts is not None and rng.random() < 0.35) else None),
+            # how the entries of an explicit temperature list are spelled: floats, Python ints where integral, numpy scalars
+            "ts_as": rng.choice(["float", "float", "native", "np"])}
 
 
 def build_model(case):
@@ -225,13 +229,22 @@ def build_model(case):
     return m
 
 
+def spell_T(v, how):
+    if how == "native":
+        return int(v) if v.denominator == 1 else float(v)
+    if how == "np":
+        import numpy as np
+        return np.int64(int(v)) if v.denominator == 1 else np.float64(float(v))
+    return float(v)
+
+
 def call_impl(case, model):
     import qubovert as qv
     kw = {"num_anneals": case["num"], "in_order": case["in_order"], "seed": case["seed"]}
     if case["init"] is not None:
         kw["initial_state"] = {C.dec(l): v for l, v in case["init"]}
     if case["Ts"] is not None:
-        kw["schedule"] = [float(F(*x)) for x in case["Ts"]]
+        kw["schedule"] = [spell_T(F(*x), case.get("ts_as", "float")) for x in case["Ts"]]
         if case.get("dur") is not None:
             kw["anneal_duration"] = case["dur"]
     else:
